@@ -254,6 +254,49 @@ func conflatedContext(c *Ctx) {
 		q.add("PATH", "liveness of an input is tested once, in the pass that registers its hook", okl && len(errs) == 1,
 			pickS(okl, "a single Err() call per input decides both counting and registration", "an input's liveness is tested more than once: an input cancelled between the tests is counted but never hooked, and the result is never cancelled"), errs...)
 	}
+	// every live input is hooked: from the live edge of the Err() test there is no way to the next input (or out of the
+	// loop) that skips ChainAfterFunc - e.g. for inputs that can never be cancelled, which must keep the result alive
+	if len(chains) > 0 {
+		errs := an.AllInstrs(fn, func(in ssa.Instruction) bool {
+			call, ok := in.(*ssa.Call)
+			return ok && call.Call.IsInvoke() && call.Call.Method.Name() == "Err"
+		})
+		if len(errs) == 1 {
+			ec := errs[0].(*ssa.Call)
+			if ifn, ns, found := q.nilTestOf(func(v ssa.Value) bool { return v == ssa.Value(ec) }); found {
+				next := func(in ssa.Instruction) bool { return in == errs[0] || an.IsReturn(in) }
+				skip := P.PathExists(fn, ifn, next, an.In(chains), cutEdge(ifn, 1-ns))
+				q.add("PATH", "every live input is counted and hooked", !skip,
+					pickS(!skip, "from Err() == nil every path to the next input or out of the loop passes ChainAfterFunc", "a live input can be skipped (not counted, not hooked): the result would be cancelled while that input is still live"), ifn)
+			} else {
+				q.undecided("PATH", "every live input is counted and hooked", "the nil test of ctx.Err() was not found")
+			}
+		}
+	}
+	// the variadic inputs are only read: filtering them in place (append to contexts[:0]) would change which input is
+	// "the first" (whose values the result carries) and what the caller's slice holds
+	{
+		var writes []ssa.Instruction
+		for _, in := range an.AllInstrs(fn, func(in ssa.Instruction) bool { return true }) {
+			switch x := in.(type) {
+			case *ssa.Store:
+				if ia, ok := x.Addr.(*ssa.IndexAddr); ok && srcIs(P, ia.X, fn.Params[0]) {
+					writes = append(writes, in)
+				}
+			case *ssa.Call:
+				if b, ok := x.Call.Value.(*ssa.Builtin); ok && (b.Name() == "append" || b.Name() == "copy" || b.Name() == "clear") && len(x.Call.Args) > 0 {
+					for _, s := range P.Sources(x.Call.Args[0]) {
+						if sl, isS := s.(*ssa.Slice); isS && srcIs(P, sl.X, fn.Params[0]) {
+							writes = append(writes, in)
+						} else if s == ssa.Value(fn.Params[0]) {
+							writes = append(writes, in)
+						}
+					}
+				}
+			}
+		}
+		q.add("WR", "the input slice is never written", len(writes) == 0, pickS(len(writes) == 0, "no store, append, copy or clear targets contexts", "the caller's slice of inputs is modified in place: contexts[0] may no longer be the first input when the result's values are taken from it"), writes...)
+	}
 	// guard count: Add(1) before the loop, Done after it, wait goroutine, success flag
 	var guardAdd, guardDone ssa.Instruction
 	for _, a := range adds {
